@@ -22,6 +22,9 @@
 (*                         dict.from_list | set.from_list                  *)
 (*                  dict:  dict.map f | entries (for_each + push: a bag)   *)
 (*                  set:   set.map f  | elems   (for_each + push: a bag)   *)
+(*                  (f and the for_each callbacks also RE-ENTRANT: they    *)
+(*                  call get / contains on the container being traversed   *)
+(*                  and list.get on r1)                                    *)
 (*   Mutate(i,op) r_i := op(r_i), NOTHING else changes                     *)
 (*                  list: push prepend pop set   dict: update remove       *)
 (*                  set:  add remove                                       *)
@@ -66,8 +69,12 @@ Mark(et, t) == CASE et = "int"  -> IntV(9)
 ShareMapFns(t) == MapFns(t) \cup {"id"}
 SApply(f, v) == IF f = "id" THEN v ELSE ApplyFn(f, v)
 FnOut(f, t) == CASE f = "id" -> t [] f = "inc" -> "int" [] f = "mkpair" -> "pair" [] f = "swap" -> "pair" [] f = "fst" -> "int"
-SetMapFns(t) == IF t = "int" THEN {"id", "inc"} ELSE {"id", "swap"}
-DictMapFns == {"id", "setw"}            \* entry -> entry, keys unchanged (no dependence on the iteration order)
+\* RE-ENTRANT callbacks: "reget" / "reself" look the entry / element up again in the container being traversed (so they
+\* are the identity), "first" replaces everything by the first element of the list r1 (if there is one); the for_each
+\* callbacks of entries / elems come plain and re-entrant ("re": the same look-up before the push).
+SetMapFns(t) == (IF t = "int" THEN {"id", "inc"} ELSE {"id", "swap"}) \cup {"reself", "first"}
+DictMapFns == {"id", "setw", "reget", "first"}   \* entry -> entry; no dependence on the iteration order
+EachKinds == {"plain", "re"}
 
 \* every value a set / bag register of element type et can hold, in a fixed order (what `contains` is asked about)
 UniSeq(et, t) ==
@@ -77,9 +84,15 @@ UniSeq(et, t) ==
                       [j \in 1..(2 * Len(ks)) |-> P(ks[(j + 1) \div 2], IF j % 2 = 1 THEN DictW(t) ELSE MarkW(t))]
 
 \* model values of the derived containers
-DMapF(d, f, t) == [q \in DOMAIN d |-> IF f = "id" THEN d[q] ELSE MarkW(t)]
+DMapF(d, f, t, l1) ==
+  CASE f \in {"id", "reget"} -> d
+    [] f = "setw" -> [q \in DOMAIN d |-> MarkW(t)]
+    [] f = "first" -> IF l1 = <<>> \/ DOMAIN d = {} THEN d ELSE [q \in {l1[1].es[1]} |-> l1[1].es[2]]
 DEntries(d) == {P(q, d[q]) : q \in DOMAIN d}
-SMapF(s, f) == {SApply(f, x) : x \in s}
+SMapF(s, f, l1) ==
+  CASE f = "reself" -> s
+    [] f = "first" -> IF l1 = <<>> \/ s = {} THEN s ELSE {l1[1]}
+    [] OTHER -> {SApply(f, x) : x \in s}
 
 Reg(rk, et, v, how) == [rk |-> rk, et |-> et, v |-> v, how |-> how]
 SOp(name, args, on, from) == [op |-> name, a |-> args, on |-> on, from |-> from]
@@ -200,11 +213,11 @@ DDictFromList == /\ CanDerive /\ st.shape = "dict"
 DDictMap == /\ CanDerive
             /\ \E i \in 1..NRegs, f \in DictMapFns :
                  /\ Regs[i].rk = "dict"
-                 /\ New(SOp("dict.map", <<FnV(f), MarkW(ty)>>, NRegs + 1, i), Reg("dict", ty, DMapF(Regs[i].v, f, ty), "dict.map"))
+                 /\ New(SOp("dict.map", <<FnV(f), MarkW(ty)>>, NRegs + 1, i), Reg("dict", ty, DMapF(Regs[i].v, f, ty, Regs[1].v), "dict.map"))
 DEntriesOf == /\ CanDerive
-              /\ \E i \in 1..NRegs :
+              /\ \E i \in 1..NRegs, g \in EachKinds :
                    /\ Regs[i].rk = "dict"
-                   /\ New(SOp("entries", <<>>, NRegs + 1, i), Reg("bag", "ent", DEntries(Regs[i].v), "entries"))
+                   /\ New(SOp("entries", <<FnV(g), MarkW(ty)>>, NRegs + 1, i), Reg("bag", "ent", DEntries(Regs[i].v), "entries"))
 DSetFromList == /\ CanDerive /\ st.shape = "set"
                 /\ \E i \in 1..NRegs :
                      /\ Regs[i].rk = "list"
@@ -212,11 +225,11 @@ DSetFromList == /\ CanDerive /\ st.shape = "set"
 DSetMap == /\ CanDerive
            /\ \E i \in 1..NRegs, f \in SetMapFns(ty) :
                 /\ Regs[i].rk = "set"
-                /\ New(SOp("set.map", <<FnV(f)>>, NRegs + 1, i), Reg("set", ty, SMapF(Regs[i].v, f), "set.map"))
+                /\ New(SOp("set.map", <<FnV(f), Mark(ty, ty)>>, NRegs + 1, i), Reg("set", ty, SMapF(Regs[i].v, f, Regs[1].v), "set.map"))
 DElemsOf == /\ CanDerive
-            /\ \E i \in 1..NRegs :
+            /\ \E i \in 1..NRegs, g \in EachKinds :
                  /\ Regs[i].rk = "set"
-                 /\ New(SOp("elems", <<>>, NRegs + 1, i), Reg("bag", ty, Regs[i].v, "elems"))
+                 /\ New(SOp("elems", <<FnV(g)>>, NRegs + 1, i), Reg("bag", ty, Regs[i].v, "elems"))
 
 (* ---- Mutate: r_i := op(r_i); the other registers are not mentioned -- *)
 CanMutate == IsShare /\ st.nmut < MaxMut /\ st.steps < MaxSteps
@@ -273,8 +286,10 @@ ShareSane ==
           /\ o.op = "copy" => Assert(d = s, "copy")
           /\ o.op = "dict.from_list" => Assert(\A q \in Base(ty) : DGet(d, q) = DGet(DFromList(DEmpty, s), q), "dict.from_list")
           /\ o.op = "set.from_list" => Assert(\A x \in Base(ty) : (x \in d) <=> LContains(s, x), "set.from_list")
-          /\ o.op = "dict.map" => Assert(DOMAIN d = DOMAIN s /\ (o.a[1].name = "id" => d = s), "dict.map")
-          /\ o.op = "set.map" => Assert(Cardinality(d) <= Cardinality(s) /\ (o.a[1].name = "id" => d = s), "set.map")
+          /\ o.op = "dict.map" => Assert(/\ Cardinality(DOMAIN d) <= Cardinality(DOMAIN s)
+                                          /\ (o.a[1].name # "first" => DOMAIN d = DOMAIN s)
+                                          /\ (o.a[1].name \in {"id", "reget"} => d = s), "dict.map")
+          /\ o.op = "set.map" => Assert(Cardinality(d) <= Cardinality(s) /\ (o.a[1].name \in {"id", "reself"} => d = s), "set.map")
           /\ o.op = "entries" => Assert(Cardinality(d) = Cardinality(DOMAIN s) /\ \A q \in DOMAIN s : P(q, s[q]) \in d, "entries")
           /\ o.op = "elems" => Assert(d = s, "elems")
   /\ (o.op # "lit" /\ o.from = 0) =>
